@@ -73,11 +73,7 @@ def eval_cases(chk, cases, shard=150):
         text = HEADER + "Definition cases : list ccase := [\n" + ";\n".join(case_term(c) for c in cs) + \
             "].\nDefinition M := Eval vm_compute in mismatches cases.\nPrint M.\n"
         ok, out = vlib.coq_eval(name, text)
-        for ext in (".v", ".vo", ".glob", ".vok", ".vos"):
-            try:
-                os.unlink(os.path.join(vlib.COQ, "Run", name + ext))
-            except OSError:
-                pass
+        vlib.cleanup_run(name)
         if not ok:
             raise vlib.Broken("case evaluation failed in Coq:\n" + out[-2000:])
         printed = vlib.parse_coq_printed(out, "M")
